@@ -569,11 +569,8 @@ func c17GitHubScenario(r *rand.Rand, rep *runReport, cw *caseWriter, cid int, k 
 	if prev := sc.Rounds[len(sc.Rounds)-2]; prev.Posts == 0 && last.General > 0 {
 		what := fmt.Sprintf("GitHub: run %d with unchanged results and nothing left to create still posted %d general comment(s) on the pull request (%d in total over %d runs): %.80q...",
 			len(sc.Rounds), last.General, len(f.general), len(sc.Rounds), f.general[len(f.general)-1])
-		if budget > 0 && len(reps) > budget {
-			rep.failKnown(fmt.Sprintf("srv%d", k), what, sc, "C17-github-general-comment-repeated")
-		} else {
-			rep.fail(fmt.Sprintf("srv%d", k), what, sc)
-		}
+		// repaired by fix 5e3fe45 (GithubReporter looks for an identical issue comment first): any recurrence is a violation
+		rep.fail(fmt.Sprintf("srv%d", k), what, sc)
 		return
 	}
 	for _, c := range f.comments {
